@@ -166,6 +166,12 @@ func marshal(m *Message, field reflect.Value, fieldAVP *dict.AVP) (error, []*AVP
 	}
 
 BASIC_TYPE:
+	// An AVP given as such (AVP or *AVP field) is passed through as it is,
+	// whatever the dictionary type of the tag.
+	if fieldType == reflect.TypeOf(AVP{}) {
+		a := field.Interface().(AVP)
+		return nil, append(avps, &a)
+	}
 	switch fieldAVP.Data.Type {
 	case datatype.AddressType:
 		t = reflect.TypeOf((*datatype.Address)(nil)).Elem() // get Type of datatype.Address
@@ -183,6 +189,10 @@ BASIC_TYPE:
 		t = reflect.TypeOf((*datatype.IPFilterRule)(nil)).Elem()
 	case datatype.IPv4Type:
 		t = reflect.TypeOf((*datatype.IPv4)(nil)).Elem()
+	case datatype.IPv6Type:
+		t = reflect.TypeOf((*datatype.IPv6)(nil)).Elem()
+	case datatype.QoSFilterRuleType:
+		t = reflect.TypeOf((*datatype.QoSFilterRule)(nil)).Elem()
 	case datatype.Integer32Type:
 		t = reflect.TypeOf((*datatype.Integer32)(nil)).Elem()
 	case datatype.Integer64Type:
@@ -199,17 +209,7 @@ BASIC_TYPE:
 		t = reflect.TypeOf((*datatype.Unsigned64)(nil)).Elem()
 	case datatype.GroupedType:
 		if field.Kind() == reflect.Struct {
-			// 1.  diam.AVP
-			// if fieldType.String() == "diam.AVP"
-			if fieldType == reflect.TypeOf(AVP{}) {
-				p := reflect.New(fieldType)
-				v := reflect.ValueOf(p).Elem()
-				v.Set(field)
-				avp := p.Interface().(*AVP)
-				return nil, append(avps, avp)
-			}
-
-			// 2. GroupedAVP
+			// GroupedAVP
 			gAVP := &GroupedAVP{}
 			for n := 0; n < field.NumField(); n++ {
 				f := field.Field(n)
